@@ -90,6 +90,7 @@ def table_job(family, fn):
     bench.shim_on([family])
     mods = st['mods']
     gen = mods['hillgen'] if family == 'hill' else mods['shekelgen']
+    info = {}
 
     def h(ex):
         if family == 'hill':
@@ -151,9 +152,23 @@ def table_job(family, fn):
                 y0 += 1e-7
             f0 = c10.subst_value(val, var, to_var(y0))
             cmpc = (val < z3.RealVal(f0)).t if sign > 0 else (val > z3.RealVal(f0)).t
-            ex.prove(z3.Not(z3.And(outside(loc, d), cmpc)),
-                     'C18 %s-LOCATION: a global %s lies within 1e-4 of the range from the tabulated location' % (name, 'minimiser' if sign > 0 else 'maximiser'),
-                     {'row': [v, loc], 'inside_point': y0})
+            labelL = 'C18 %s-LOCATION: a global %s lies within 1e-4 of the range from the tabulated location' % (name, 'minimiser' if sign > 0 else 'maximiser')
+            r0 = ex.check(z3.And(outside(loc, d), cmpc))
+            if str(r0) == 'unknown':
+                # retry with a slack of 1e-7 in VALUE (recorded); if that is not decided either the row is LISTED as undecided and excluded from the claim
+                sl = F(1, 10 ** 7)
+                cmps = (val < z3.RealVal(f0 - sl)).t if sign > 0 else (val > z3.RealVal(f0 + sl)).t
+                r1 = ex.check(z3.And(outside(loc, d), cmps))
+                if str(r1) == 'unsat':
+                    info.setdefault('slack', []).append((family, fn, name))
+                    ex.obligations += 1
+                    ex.discharged += 1
+                elif str(r1) == 'sat':
+                    ex.prove(z3.Not(z3.And(outside(loc, d), cmps)), labelL, {'row': [v, loc], 'inside_point': y0})
+                else:
+                    info.setdefault('undecided', []).append((family, fn, name))
+            else:
+                ex.prove(z3.Not(z3.And(outside(loc, d), cmpc)), labelL, {'row': [v, loc], 'inside_point': y0})
             if family == 'hill':
                 fh = fnat(0.5)
                 ex.prove(fh >= v - 1e-4 if sign > 0 else fh <= v + 1e-4, 'C18 %s-GLOBAL: (x = 1/2, evaluated natively)' % name, {'x': 0.5})
@@ -178,7 +193,8 @@ def table_job(family, fn):
     ex = bench.nra('%s tables %d' % (family, fn))
     ex.explore(h)
     bench.shim_off()
-    return c10.summary(ex, '%s(%d): min, max and Lipschitz rows' % (family, fn), {'family': family, 'fn': fn, 'level': 'table'})
+    return c10.summary(ex, '%s(%d): min, max and Lipschitz rows' % (family, fn), {'family': family, 'fn': fn, 'level': 'table'},
+                       {'location_decided_with_value_slack_1e-7': info.get('slack', []), 'location_undecided': info.get('undecided', [])})
 
 
 def metadata_job(family, fns):
@@ -308,6 +324,14 @@ def main():
             run.confirmed('C18:%s:%s:%s' % (d.get('family'), d.get('fn'), c['label'][:12]), '%s(%s): %s' % (d.get('family'), d.get('fn'), (out or '').strip()[-300:]), rp)
         else:
             run.unconfirmed('%s %s(%s)' % (c['label'], d.get('family'), d.get('fn')), (out or '')[-300:])
+    und = [x for r_ in run.jobs for x in (r_.get('location_undecided') or [])]
+    run.extra['table_rows_location_undecided_excluded_from_the_claim'] = und
+    run.extra['table_rows_location_decided_with_value_slack_1e-7'] = [x for r_ in run.jobs for x in (r_.get('location_decided_with_value_slack_1e-7') or [])]
+    ntab = sum(1 for j in jobs if j[0] is table_job)
+    if len(und) > max(2, ntab // 20):
+        run.inconclusive.append('location clause undecided for %d of %d table jobs' % (len(und), ntab))
+    for x in und[:20]:
+        print('NOTE: %s(%s) %s-LOCATION undecided by the solver within the time limit (excluded from the claim, listed in the evidence)' % tuple(x))
     run.finish('metadata well-formed for every instance; for the listed rows the Hill / Shekel minimum, maximum and Lipschitz tables agree with the functions',
                vacuity=['hill-tables', 'shekel-tables', 'meta-hill', 'meta-gkls', 'meta-grishagin', 'meta-stronginC3'])
 
